@@ -282,7 +282,7 @@ func matchCases(full bool, r *lib.Rng, emit func(*Case)) {
 	}
 	var cut func(t *T) *T
 	cut = func(t *T) *T {
-		c := &T{K: t.K, B: t.B, I: t.I, F: t.F, S: t.S}
+		c := &T{K: t.K, B: t.B, I: t.I, U: t.U, Uns: t.Uns, F: t.F, S: t.S}
 		switch t.K {
 		case KArr:
 			for _, k := range t.Kids {
@@ -301,7 +301,7 @@ func matchCases(full bool, r *lib.Rng, emit func(*Case)) {
 				c.Kids = append(c.Kids, nT())
 			}
 		case KInt:
-			if r.Intn(4) == 0 {
+			if !t.Uns && r.Intn(4) == 0 {
 				f := float64(t.I)
 				if int64(f) == t.I && f < 1<<62 && f > -(1<<62) {
 					c.K, c.F = KFlt, f
